@@ -5,6 +5,10 @@ import (
 	"math/big"
 	"strings"
 	"testing"
+
+	"exoverif/sim"
+
+	"pgregory.net/rapid"
 )
 
 // livenessInv counts what the hostile histories got accepted; the oracle itself is the
@@ -12,6 +16,7 @@ import (
 type livenessInv struct {
 	hostileAccepted int
 	blocksAfter     int
+	blocksAfterAny  int
 }
 
 func (l *livenessInv) Init(m *Machine) error        { return nil }
@@ -22,6 +27,9 @@ func (l *livenessInv) After(m *Machine, a *Action, o Outcome) error {
 	}
 	if a.Kind == "nextBlock" && l.hostileAccepted > 0 {
 		l.blocksAfter++
+	}
+	if a.Kind == "nextBlock" {
+		l.blocksAfterAny++
 	}
 	if m.C.ValSetErr != nil && !strings.Contains(m.C.ValSetErr.Error(), "empty set") {
 		// (an emptied validator set - every validator left or lost its stake - is out of scope:
@@ -79,6 +87,13 @@ func init() {
 				if i < len(m.Outs) && m.Outs[i].OK && a.Kind == "rawCall" && rawCallHasBigWord(a.Data) {
 					big = true
 				}
+				if i < len(m.Outs) && m.Outs[i].OK && a.Kind == "price" {
+					for _, p := range a.Prices {
+						if len(p) > 18 { // a price above 10^18 has the same effect as an amount above 2^60
+							big = true
+						}
+					}
+				}
 			}
 			if !big {
 				return ""
@@ -124,6 +139,52 @@ func init() {
 }
 
 func TestC11AVS(t *testing.T) { runWorldProp(t, "C11AVS") }
+
+// the same oracle over histories in which the price feeder of the native-restaking asset is
+// live: its "price" is an encoding of balance changes that the oracle module parses and applies,
+// also when a round is carried forward at the end of a block; price strings of every length,
+// stakers joining and leaving in between
+func init() {
+	base := *worldProps["C11"]
+	base.Name = "C11NST"
+	long := func(c string, n int) string { return strings.Repeat(c, n) }
+	base.Gen = GenOpts{
+		Weights:    map[string]int{"price": 46, "nextBlock": 26, "depositNST": 9, "withdrawNST": 5, "delegate": 4, "undelegate": 3, "nstUpdate": 2, "depositLST": 2, "optOut": 1, "optIn": 2},
+		HostilePct: 8, ExtremePct: 0, Anchor: true, Tempos: []int{3, 8, 30}, CapBits: 40,
+		PricePool: []string{"100", "100", "2", long("7", 40), long("7", 40), long("1", 33), long("9", 64), "1" + long("0", 31), long("3", 32)},
+	}
+	base.Config = func(t *rapid.T) sim.Config {
+		cfg := oracleConfig(t)
+		// one of the feeders serves the native-restaking asset
+		cfg.Feeders[0].Asset = 2
+		cfg.Feeders[0].EndBlock, cfg.Feeders[0].ResumeAfter = 0, 0
+		// the native-restaking asset does not count for the chain's own voting power here:
+		// otherwise every long price string ends in the listed int64 overflow (K2) at the next
+		// epoch end and hides what lies behind it
+		cfg.DogfoodAssets = []int{0, 1}
+		return cfg
+	}
+	base.MinSteps, base.MaxSteps = 30, 100
+	base.Invariants = func() []Invariant { return []Invariant{&livenessInv{}, &oracleInv{}} }
+	base.NonTrivial = func(m *Machine, invs []Invariant) (bool, []string) {
+		l := invs[0].(*livenessInv)
+		long := 0
+		for i, a := range m.Log {
+			if a.Kind == "price" && i < len(m.Outs) && m.Outs[i].OK {
+				for _, p := range a.Prices {
+					if len(p) >= 32 {
+						long++
+					}
+				}
+			}
+		}
+		m.Labels["long-price-strings-accepted"] += long
+		return long > 0 && l.blocksAfterAny > 3, nil
+	}
+	registerWorldProp(&base)
+}
+
+func TestC11NST(t *testing.T) { runWorldProp(t, "C11NST") }
 
 // rawCallHasBigWord: does the calldata of a raw precompile call carry a 32-byte word above 2^60
 // that is not an address-like or all-ones padding value (i.e. possibly an amount)?
